@@ -46,6 +46,15 @@ pub fn key_pool() -> Vec<Key> {
         for ph in [Decimal::new(100, 2), Decimal::new(75, 1), Decimal::new(15, 1), Decimal::new(1500, 3)] { v.push(Key { e: "dec", expr: ex.to_string(), ph: Val::D(ph) }); }
     }
     for ex in ["med(3,1,2)", "med(@,@,1,2,3)", "med(4,@,4,1)"] { for ph in [0i64, 4, 2] { v.push(Key { e: "i64", expr: ex.to_string(), ph: Val::I(ph) }); } }
+    // long argument lists of inexact doubles: a summation whose order depends on where the operands happen to lie in memory
+    // (alignment-driven chunking) gives another last bit after other calls have shaped the heap
+    for n in [32usize, 37, 50, 64, 100, 129] {
+        let list: Vec<String> = (0..n).map(|k| format!("{:.2}", 0.11 + 1.37 * ((k * 7) % 31) as f64 + 0.01 * k as f64)).collect();
+        for agg in ["avg", "med", "max"] {
+            v.push(Key { e: "f64", expr: format!("{}({})", agg, list.join(",")), ph: f(0.0) });
+            v.push(Key { e: "num", expr: format!("{}({})", agg, list.join(",")), ph: Val::N(Number::Integer(0)) });
+        }
+    }
     // iterative solvers and series (Lambert W, Gamma, ilog, roots, exp / ln of eval_decimal) at neighbouring arguments: a solver that
     // remembers its last answer (warm start, memo) shows when the same function is called again close by
     let near: [f64; 9] = [-0.36, -0.3678, -0.35, 0.5, 0.51, 2.5, 2.55, 26.5, 27.0];
